@@ -7,9 +7,13 @@
 package ctl
 
 import (
+	"bytes"
 	"fmt"
+	"runtime"
+	"strconv"
 	"strings"
 	"sync"
+	"sync/atomic"
 )
 
 // Crash is the panic value of an injected crash. The harness recovers it and
@@ -52,12 +56,38 @@ type Controller struct {
 	after   bool
 	fired   *Crash
 	writeNo int // ordinal of WriteFile calls since Begin
+
+	owner   uint64 // goroutine that called Begin: the "process" under test
+	fmu     sync.Mutex
+	foreign atomic.Int64 // steps performed by any other goroutine
+	flabel  atomic.Value // label of the first such step
+}
+
+// goid returns the current goroutine's id (parsed from its stack header).
+func goid() uint64 {
+	var buf [64]byte
+	b := buf[:runtime.Stack(buf[:], false)]
+	b = bytes.TrimPrefix(b, []byte("goroutine "))
+	if i := bytes.IndexByte(b, ' '); i > 0 {
+		n, _ := strconv.ParseUint(string(b[:i]), 10, 64)
+		return n
+	}
+	return 0
+}
+
+// ForeignSteps reports how many filesystem steps were performed by a goroutine
+// other than the one driving the code under test (i.e. work the code under
+// test left running in the background), and the label of the first one.
+func (c *Controller) ForeignSteps() (int64, string) {
+	l, _ := c.flabel.Load().(string)
+	return c.foreign.Load(), l
 }
 
 // Begin resets the step counter and disarms; call it before every operation
 // of the code under test whose steps are to be numbered from 0.
 func (c *Controller) Begin() {
 	c.n, c.armed, c.fired, c.writeNo = 0, false, nil, 0
+	c.owner = goid()
 }
 
 // Arm places one crash: before (after=false) or after (after=true) step `at`.
@@ -78,6 +108,16 @@ func (c *Controller) NextWriteOrdinal() int { c.writeNo++; return c.writeNo }
 
 // Step performs one filesystem step with its two crash points.
 func (c *Controller) Step(label, path string, do func() error) error {
+	if c.owner != 0 && goid() != c.owner {
+		// a background goroutine of the code under test: perform the step, but
+		// keep it out of the numbered history (its timing is not controlled)
+		c.fmu.Lock()
+		defer c.fmu.Unlock()
+		if c.foreign.Add(1) == 1 {
+			c.flabel.Store(label)
+		}
+		return do()
+	}
 	idx := c.n
 	if c.armed && !c.after && c.at == idx {
 		c.armed = false
